@@ -46,6 +46,7 @@ type envTarEntry struct {
 	Body     string
 	Atime    int64 // access time recorded in the header (PAX record), 0 = none
 	Size     int64 // output only: the size recorded in the entry's header
+	Pad      int64 // output only: bytes stored after Body (bodies longer than 4096 bytes are cut there)
 }
 
 var envChrooted bool
@@ -96,17 +97,7 @@ func envMust(err error) {
 
 // envMode: permission bits plus setuid / setgid / sticky given as 04000 / 02000 / 01000.
 func envMode(perm uint32) fs.FileMode {
-	m := fs.FileMode(perm & 0777)
-	if perm&04000 != 0 {
-		m |= fs.ModeSetuid
-	}
-	if perm&02000 != 0 {
-		m |= fs.ModeSetgid
-	}
-	if perm&01000 != 0 {
-		m |= fs.ModeSticky
-	}
-	return m
+	return fs.FileMode(perm&0777) | fs.FileMode(perm&06000)<<12 | fs.FileMode(perm&01000)<<11
 }
 
 func envMkdir(path string, perm uint32, mtime int64) {
@@ -117,6 +108,14 @@ func envMkdir(path string, perm uint32, mtime int64) {
 
 func envWriteFile(path string, perm uint32, mtime int64, data string) {
 	envMust(os.WriteFile(path, []byte(data), 0644))
+	envMust(os.Chmod(path, envMode(perm)))
+	envMust(os.Chtimes(path, time.Unix(mtime, 0), time.Unix(mtime, 0)))
+}
+
+// envWriteSparse: a regular file holding data followed by a hole of pad bytes.
+func envWriteSparse(path string, perm uint32, mtime int64, data string, pad int64) {
+	envMust(os.WriteFile(path, []byte(data), 0644))
+	envMust(os.Truncate(path, int64(len(data))+pad))
 	envMust(os.Chmod(path, envMode(perm)))
 	envMust(os.Chtimes(path, time.Unix(mtime, 0), time.Unix(mtime, 0)))
 }
@@ -435,7 +434,12 @@ func envTarWrittenBy(i int) []envTarEntry {
 			break
 		}
 		b, _ := io.ReadAll(tr)
-		out = append(out, envTarEntry{Name: h.Name, Linkname: h.Linkname, Typeflag: h.Typeflag, Mode: h.Mode, Mtime: h.ModTime.Unix(), Body: string(b), Size: h.Size})
+		var pad int64
+		if len(b) > 4096 { // a sparse file's hole: only its length matters
+			pad = int64(len(b) - 4096)
+			b = b[:4096]
+		}
+		out = append(out, envTarEntry{Name: h.Name, Linkname: h.Linkname, Typeflag: h.Typeflag, Mode: h.Mode, Mtime: h.ModTime.Unix(), Body: string(b), Size: h.Size, Pad: pad})
 	}
 	return out
 }
